@@ -34,7 +34,7 @@ def base_pipeline(rnd, n):
             nodes.append({"processor": "TOpW", "parameters": {"a": "wa"}})
             live.append("w")
         elif r < 0.75:
-            k = rnd.choice(["a", "b", "c", "e"])
+            k = rnd.choice(["b", "c", "e"])      # never "a": the injected unresolved fault relies on `a` being absent
             nodes.append({"processor": rnd.choice(["TProbe", "TProbe", "TProbeP"]), "context_key": k})
             if nodes[-1]["processor"] == "TProbeP":
                 nodes[-1]["parameters"] = {"a": "pa"}
@@ -64,6 +64,8 @@ def inject(nodes, kind, k):
     if kind == "none":
         return nodes, None
     if kind == "construct-unknown-param":
+        if nodes[k]["processor"].startswith(("rename:", "delete:", "template:")):
+            k = 0           # factory-made context processors take **kwargs: no parameter is unknown to them
         nodes[k].setdefault("parameters", {})["bogus_param"] = 1
         return nodes, "construct"
     if kind == "construct-probe-no-key":
